@@ -2,6 +2,7 @@ package cs
 
 import (
 	"fmt"
+	"strings"
 
 	"package-operator.run/internal/packages/verifsim/store"
 )
@@ -65,6 +66,35 @@ func hasSlices(owner store.Obj) bool {
 	return false
 }
 
+// dryRunViolationReasons are the API status reasons the dry-run preflight check turns into a
+// "violation" (internal/preflight/dryrun.go); during teardown a violation makes the phase
+// reconciler count the object as cleaned up.
+var dryRunViolationReasons = map[string]bool{"Unauthorized": true, "Forbidden": true, "AlreadyExists": true, "Conflict": true, "Invalid": true,
+	"BadRequest": true, "MethodNotAllowed": true, "RequestEntityTooLarge": true, "UnsupportedMediaType": true, "NotAcceptable": true, "NotFound": true}
+
+// afterDryRunRejection reports whether, in this pass, the dry run of one of the objects in left was
+// answered with one of those reasons (known finding: teardown then abandons the object).
+func afterDryRunRejection(p *Pass, left []string) string {
+	for _, r := range p.Reqs {
+		if !r.DryRun || r.Err == nil || !dryRunViolationReasons[r.ErrReason()] {
+			continue
+		}
+		for _, l := range left {
+			if strings.Contains(l, r.Key().String()) {
+				return "after-dry-run-rejection"
+			}
+		}
+	}
+	return ""
+}
+
+func sigOr(taint, sig string) string {
+	if taint != "" {
+		return taint
+	}
+	return sig
+}
+
 func causeTag(owner store.Obj) string {
 	if hasSlices(owner) {
 		return "sliced"
@@ -105,7 +135,7 @@ func (m *MonC04) OnReq(w *World, r *Req) {
 		if idx >= 0 {
 			m.touch()
 			if left := w.stillControlled(owner, idx); len(left) > 0 {
-				w.Report(Violation{Property: "C04", Rule: "delete-out-of-order", Sig: shortSite(r.Site) + "/" + causeTag(owner), Seq: r.Seq,
+				w.Report(Violation{Property: "C04", Rule: "delete-out-of-order", Sig: sigOr(afterDryRunRejection(p, left), shortSite(r.Site)+"/"+causeTag(owner)), Seq: r.Seq,
 					Msg: fmt.Sprintf("pass %d of %s %s deleted %s (phase %q) while objects of later phases are still controlled by it: %v", p.ID, p.Ctrl, p.Key, r.Key(), phases[idx].Name, left)})
 			}
 		}
@@ -118,7 +148,7 @@ func (m *MonC04) OnReq(w *World, r *Req) {
 	if r.Before != nil && store.HasFinalizer(r.Before, finCached) && (r.After == nil || !store.HasFinalizer(r.After, finCached)) {
 		m.touch()
 		if left := w.stillControlled(owner, -1); len(left) > 0 {
-			w.Report(Violation{Property: "C04", Rule: "finalizer-early", Sig: shortSite(r.Site) + "/" + causeTag(owner), Seq: r.Seq,
+			w.Report(Violation{Property: "C04", Rule: "finalizer-early", Sig: sigOr(afterDryRunRejection(p, left), shortSite(r.Site)+"/"+causeTag(owner)), Seq: r.Seq,
 				Msg: fmt.Sprintf("pass %d of %s %s removed its finalizer while it still controls: %v", p.ID, p.Ctrl, p.Key, left)})
 		}
 		return
@@ -129,7 +159,7 @@ func (m *MonC04) OnReq(w *World, r *Req) {
 		if c != nil && c.Status == "True" {
 			m.touch()
 			if len(left) > 0 {
-				w.Report(Violation{Property: "C04", Rule: "archived-early", Sig: shortSite(r.Site) + "/" + causeTag(owner), Seq: r.Seq,
+				w.Report(Violation{Property: "C04", Rule: "archived-early", Sig: sigOr(afterDryRunRejection(p, left), shortSite(r.Site)+"/"+causeTag(owner)), Seq: r.Seq,
 					Msg: fmt.Sprintf("pass %d of %s %s reported Archived=True while it still controls: %v", p.ID, p.Ctrl, p.Key, left)})
 			}
 			return
